@@ -16,7 +16,7 @@ func init() {
 			"R6 the retry loop keeps retrying unless the client cancelled or the try duration is spent and ends in 502; " +
 			"R7 every attempt gets the rewound buffered body and buffering is decided by exactly {retries enabled}; " +
 			"R8 the hash policies' first slot is a function of key and pool length only (deterministic hash of the whole key), and each policy keys by its documented request attribute — ip_hash by the client address with the port removed by net.SplitHostPort; " +
-			"R9 the full selection table of every policy and of the upstream's own Select for pools of up to five backends (three for least_conn, random and the key policies; seven and four in the thorough tier) under every availability mask: only available backends are returned and nil exactly when none is available; first picks the earliest, least_conn a least-loaded one, the hash probe the cyclic-next one from hash(key) mod n, round_robin the next after its counter and an even rotation when all are up; ip_hash, uri_hash and header send equal keys (client address without port, URI, header value) to the same backend and different keys through the hash (this subsumes the former pattern rules R1-R3). Since round 4: R6 retrying as traces of Proxy.ServeHTTP (oracle upstream, clock and backend; eight scripts): attempts continue after a failure while the try duration is not spent and stop at an answer, a cancellation or exhaustion (502); every attempt on a buffered body follows a rewind. R9 also: GetHostCount is the configured pool size. R10 every registered policy constructor yields a fresh object. Since round 6: R9 round_robin with its counter about to wrap around; R7: the body is buffered exactly when retries are enabled (a single backend is retried after its fail_timeout) and every attempt after the first follows a rewind.",
+			"R9 the full selection table of every policy and of the upstream's own Select for pools of up to five backends (three for least_conn, random and the key policies; seven and four in the thorough tier) under every availability mask: only available backends are returned and nil exactly when none is available; first picks the earliest, least_conn a least-loaded one, the hash probe the cyclic-next one from hash(key) mod n, round_robin the next after its counter and an even rotation when all are up; ip_hash, uri_hash and header send equal keys (client address without port, URI, header value) to the same backend and different keys through the hash (this subsumes the former pattern rules R1-R3). Since round 4: R6 retrying as traces of Proxy.ServeHTTP (oracle upstream, clock and backend; eight scripts): attempts continue after a failure while the try duration is not spent and stop at an answer, a cancellation or exhaustion (502); every attempt on a buffered body follows a rewind. R9 also: GetHostCount is the configured pool size. R10 every registered policy constructor yields a fresh object. Since round 6: R9 round_robin with its counter about to wrap around; R7: the body is buffered exactly when retries are enabled (a single backend is retried after its fail_timeout) and every attempt after the first follows a rewind. Since round 7: R11 every backend address ends up with the scheme it was written with, or http:// (also host names that begin with the letters http).",
 		notDecided: "evenness of random, and of round_robin when some backends are down; pools larger than the enumerated ones; hash stability across pool changes; timing of try_duration; outcome under all failure patterns.",
 	})
 	register("C14", &propSpec{
@@ -40,6 +40,7 @@ func runC05(r *Report, p *Program) {
 	c05R8(h)
 	c05R9(h)
 	c05R10(h)
+	c05R11(h)
 }
 
 func selectFuncs(h H, rule string) []*ssa.Function {
